@@ -41,7 +41,11 @@ Inductive cstep :=
 | SRead (o max : Z) (hit : bool) (path : Z) (r : obs_res)
 (* a fresh PartitionLog(startOffset = sn) over the same S3 + RestoreFromS3 (succeeded):
    afterwards nextOffset and, per registered segment, base / last / size / index entries *)
-| SRestart (sn next : Z) (segs : list (Z * Z * Z * list (Z * Z))).
+| SRestart (sn next : Z) (segs : list (Z * Z * Z * list (Z * Z)))
+    (* the log's namespace / topic / partition, the prefix the real code passed to
+       ListSegments, the keys it got back (sorted) and all segment keys of the bucket
+       (sorted; other partitions, topics and namespaces included) *)
+    (ns topic : bytes) (part : Z) (prefix : bytes) (returned all_keys : list bytes).
 
 (* [k_ext]: the tree under test has fixes/C04-never-cut-inside-index-block.patch (probed by the harness) *)
 Record case := mkCase { k_interval : Z; k_requeue : bool; k_ext : bool; k_start : Z; k_steps : list cstep }.
@@ -90,9 +94,12 @@ Fixpoint check_steps (v : variant) (l : plog) (hist : list batch) (steps : list 
       && check_steps v l hist r
   | SRead o max hit path x :: r =>
       res_eqb l hist (read_gen v true l hit o max) x && path_ok l o max hit path && check_steps v l hist r
-  | SRestart sn next segs :: r =>
+  | SRestart sn next segs ns topic part prefix returned all_keys :: r =>
       let l' := restore l sn in
       (l_next l' =? next)
+      && bytes_eqb prefix (part_prefix ns topic part)
+      && list_eqb bytes_eqb returned (list_segments all_keys (part_prefix ns topic part))
+      && forallb (fun s => existsb (bytes_eqb (seg_key ns topic part (s_base s))) returned) (l_segs l')
       && list_eqb (fun a b => match a, b with (b1, l1, z1, e1), (b2, l2, z2, e2) =>
                      (b1 =? b2) && (l1 =? l2) && (z1 =? z2)
                      && list_eqb (fun x y => (fst x =? fst y) && (snd x =? snd y)) e1 e2 end)
